@@ -345,10 +345,13 @@ fn do_map_update(
     f: KValue,
     vm: &mut KotoVm,
 ) -> Result<KValue> {
-    if !map.data().contains_key(&key) {
-        map.data_mut().insert(key.clone(), default);
-    }
-    let value = map.get(&key).unwrap();
+    let value = match map.get(&key) {
+        Some(value) => value,
+        None => {
+            map.data_mut().insert(key.clone(), default.clone());
+            default
+        }
+    };
     match vm.call_function(f, value) {
         Ok(new_value) => {
             map.data_mut().insert(key, new_value.clone());
